@@ -108,6 +108,10 @@ func c26GenMutants(c *vc.Ctx, thorough bool, root string, mu *sync.Mutex, disagr
 					c.Count("seeds_parse_error", 1)
 					continue
 				}
+				if why := c26OutsideSubset(f, src); why != "" {
+					c.Count("seeds_outside_subset", 1)
+					continue
+				}
 				if c.Expired() {
 					continue
 				}
@@ -160,6 +164,12 @@ func c26GenMutants(c *vc.Ctx, thorough bool, root string, mu *sync.Mutex, disagr
 				continue
 			}
 			seen[m] = true
+			if mf, err := syntax.NewParser(syntax.Variant(syntax.LangBash)).Parse(strings.NewReader(m), ""); err == nil {
+				if why := c26OutsideSubset(mf, m); why != "" {
+					c.Count("skipped_mutant_outside_subset", 1)
+					continue
+				}
+			}
 			n++
 			emit(c26Case{"m", fmt.Sprintf("%s@%d of %q", e.what, e.from, si.src), m})
 		}
